@@ -11,11 +11,23 @@
          - for a total comparator (tolerance 0, the exact form of the theorems) they agree always ([add_term_ref_is_termlist_total]). *)
 Require Import Bool List Arith Lia.
 From PV Require Import TermList TermListProofs LehmannShapes LehmannInterp LehmannInterpProofs.
-From PVgen Require Import Gen_LehAddTerm.
+From PVgen Require Import Gen_LehAddTerm Gen_LehTermListEval.
 Import ListNotations.
 
 Lemma gen_add_term_is_model : gen_add_term = model_add_term.
 Proof. reflexivity. Qed.
+
+Lemma gen_termlist_eval_is_model : gen_termlist_eval = mk_tl_eval true true AccPlus true /\ gen_termlist_arities = [1; 2; 3; 4].
+Proof. split; reflexivity. Qed.
+
+(** TermList::operator() of the source is the left fold of PV.TermList.eval / Chi.list_eval *)
+Lemma termlist_eval_src_is_fold (T K : Type) (k0 : K) (kadd ksub : K -> K -> K) (f : T -> K) (l : list T) :
+  termlist_eval_by T K k0 kadd ksub gen_termlist_eval f l = fold_left (fun acc t => kadd acc (f t)) l k0.
+Proof. unfold termlist_eval_by. rewrite (proj1 gen_termlist_eval_is_model). reflexivity. Qed.
+
+Lemma fold_left_map_l {A B C} (f : A -> B -> A) (h : C -> B) (l : list C) (a : A) :
+  fold_left f (map h l) a = fold_left (fun acc c => f acc (h c)) l a.
+Proof. revert a. induction l as [|c l IH]; intros a; [reflexivity|]. cbn [map fold_left]. apply IH. Qed.
 
 Section Bridge.
 Variables P C : Type.
@@ -115,7 +127,7 @@ Proof.
       intros y Hy. pose proof (filter_nil_all _ _ FA y Hy) as Ly. unfold like in Ly.
       destruct (comp (pole t) (pole y)) eqn:E1; [reflexivity|].
       destruct (comp (pole y) (pole t)) eqn:E2; [|discriminate Ly].
-      exfalso. rewrite <- H1. rewrite (comp_trans _ _ _ (Hg y Hy) E2). discriminate. }
+      pose proof (comp_trans _ _ _ (Hg y Hy) E2) as X. rewrite H1 in X. discriminate X. }
     (* the old form *)
     unfold add_term. rewrite Ef. rewrite (erase_at P C comp comp_irrefl comp_trans x B A Hs). cbn [fst snd].
     (* the new form: blocked by x *)
@@ -133,7 +145,7 @@ Proof.
     assert (HB' : all_lt P C comp B (pole x)) by (intros z Hz; apply Hc; [exact Hz|left; reflexivity]).
     rewrite (insert_at P C comp comp_irrefl comp_trans (pole x, cadd (residue x) (residue t)) B A HB' Hg). cbn [fst].
     pose proof (insert_src_at (pole x, cadd (residue x) (residue t)) B A HB' Hg) as I2.
-    destruct (length B + length A); cbn [add_term_ref]; rewrite I2; reflexivity.
+    generalize (length (B ++ A)). intros n. destruct n; cbn [add_term_ref]; rewrite I2; reflexivity.
   - destruct F as [B [A [E [HB HA]]]]. subst l. apply ref_new; [exact Ef|].
     rewrite (insert_at P C comp comp_irrefl comp_trans t B A HB HA). reflexivity.
 Qed.
